@@ -481,10 +481,20 @@ func runWorker(bo *buildOut, cfg *CheckCfg, mode, tier string, seedBase uint64, 
 		"VERIF_RUNS="+strconv.Itoa(runs), "VERIF_BUDGET_MS="+strconv.FormatInt(budget.Milliseconds(), 10),
 		"VERIF_OUT="+out, "VERIF_REPLAY_DIR="+bo.replays)
 	env = append(env, extraEnv...)
+	var kc []string
+	for _, f := range loadFindings() {
+		if f.Status == "known" {
+			kc = append(kc, f.Class)
+		}
+	}
+	env = append(env, "VERIF_KNOWN_CLASSES="+strings.Join(kc, ","))
 	c.Env = env
 	var eb bytes.Buffer
 	c.Stdout, c.Stderr = &eb, &eb
 	err := c.Run()
+	if os.Getenv("VERIF_DEBUG_DET") != "" {
+		fmt.Print(eb.String())
+	}
 	wr := workerResult{block: block, stderr: tail(eb.String(), 60)}
 	if hb, e := os.ReadFile(out + ".hung"); e == nil {
 		wr.hung = strings.Fields(string(hb))
